@@ -29,14 +29,18 @@ static void post_invariant(const Instance& f) {
 
 // how a freshly entered / re-targeted composite region picks its sub-state (statement of C02)
 static bool kind_determined(int kind, int region) {
-  if (kind == 1 || kind == 2) return true;                              // restart, resume
-  if (kind == 0) return VM_SPEC[region].strategy == ST_COMPOSITE || VM_SPEC[region].strategy == ST_RESUMABLE;
-  return false;                                                         // select / utilize / randomize: machine specific
+  if (kind == 1 || kind == 2 || kind == 3) return true;                 // restart, resume, select
+  if (kind == 0) return VM_SPEC[region].strategy == ST_COMPOSITE || VM_SPEC[region].strategy == ST_RESUMABLE || VM_SPEC[region].strategy == ST_SELECTABLE;
+  return false;                                                         // utilize / randomize: checked by the C12 obligations
 }
 static Prong kind_choice(int kind, int region, const Snapshot& old) {
   const Prong res = old.resumable[VM_SPEC[region].fork];
   if (kind == 1) return 0;
   if (kind == 2) return res != INVALID_PRONG ? res : 0;
+  if (kind == 3 || VM_SPEC[region].strategy == ST_SELECTABLE) {          // the index returned by its select()
+    VASSERT(C02, g_sel_called[region], "a region resolved by selection consults its select()");
+    return g_sel_val[region];
+  }
   return VM_SPEC[region].strategy == ST_RESUMABLE && res != INVALID_PRONG ? res : 0;
 }
 // C02 postcondition of ONE approved request (kind, dest) from configuration `old`
@@ -189,6 +193,20 @@ static void body_queued2(int k1, int d1, int k2, int d2) {
     if (compatible(d1, d2)) VASSERT(C02, spec_active(f, d1), "a compatible earlier request of the batch is honoured too");
   }
 }
+static void body_queued3(int d1, int d2, int d3) {
+  ARBITRARY_ACTIVE(f);
+  Snapshot old; snap(f, old);
+  call_queued(f, 0, d1); call_queued(f, 0, d2); call_queued(f, 0, d3);
+  g_issuer = -1; g_issuer2 = -1;
+  f.update();
+  post_invariant(f);
+  if (g_round_cancelled) { VASSERT(C04, same_config(f, old) && no_lifecycle(), "a vetoed round changes nothing"); }
+  else {
+    VASSERT(C02, spec_active(f, d3), "the last request of a batch prevails: its destination is active");
+    if (compatible(d2, d3)) VASSERT(C02, spec_active(f, d2), "a compatible earlier request of the batch is honoured too");
+    if (compatible(d1, d3) && compatible(d1, d2)) VASSERT(C02, spec_active(f, d1), "a compatible earlier request of the batch is honoured too");
+  }
+}
 // ------------------------------------------------------------------------------------------------ update() with callbacks issuing requests
 static void body_update(unsigned cfg, int issuer, int kind, int dest) {
   CONFIGURED(f, cfg);
@@ -276,3 +294,129 @@ static void body_order_query(unsigned cfg) {
   check_sequence(f, PH_QUERY, PH_QUERY, true);
   VASSERT(C05, same_config(f, old) && inv_quiescent(f) && no_lifecycle(), "query() changes nothing");
 }
+
+// ------------------------------------------------------------------------------------------------ C04: guard-requested substitutes
+static void body_substitute(unsigned cfg, int dest, int guard_state, int is_entry, int sub_dest) {
+  CONFIGURED(f, cfg);
+  g_sub_guard = guard_state; g_sub_is_entry = is_entry != 0; g_sub_dest = sub_dest;
+  Snapshot old; snap(f, old);
+  f.immediateChangeTo((StateID) dest);
+  post_invariant(f);
+  if (!g_sub_done) {                                  // the substituting guard was not consulted for this request
+    if (g_cancel_round[1]) { VASSERT(C04, same_config(f, old) && no_lifecycle(), "a vetoed round changes nothing"); }
+    else post_single_request(f, old, 0, dest);
+  } else {
+    VREACH("round 1 vetoed by a guard that requested a substitute");
+    if (g_cancel_round[2]) {
+      VREACH("the substitute round vetoed as well");
+      VASSERT(C04, same_config(f, old), "a veto in the substitute round leaves active and resumable sub-states as they were");
+      VASSERT(C04, no_lifecycle(), "a veto in the substitute round runs no lifecycle callback");
+    } else {
+      VASSERT(C04, g_round_now == 2 || dest == sub_dest, "the substitute request goes through the guards in a round of its own");
+      post_single_request(f, old, 0, sub_dest);         // the substitute takes effect as if requested alone; the vetoed request does not
+    }
+  }
+}
+static void body_substitute_forever(unsigned cfg, int dest, int guard_state, int is_entry) {
+  CONFIGURED(f, cfg);
+  g_sub_guard = guard_state; g_sub_is_entry = is_entry != 0; g_sub_dest = dest; g_sub_forever = true;
+  Snapshot old; snap(f, old);
+  f.immediateChangeTo((StateID) dest);
+  post_invariant(f);
+  if (g_sub_done) {
+    VASSERT(C04, g_sub_guard_calls <= Instance::SUBSTITUTION_LIMIT, "processing stops after at most the substitution limit of rounds");
+    VASSERT(C04, same_config(f, old) && no_lifecycle(), "a transition vetoed in every round never takes effect");
+  }
+}
+
+// ------------------------------------------------------------------------------------------------ C08: save / load / re-save
+#ifdef HFSM2_ENABLE_SERIALIZATION
+using SerialBuffer = Instance::SerialBuffer;
+static void arbitrary_in_configuration(Instance& f, int k) {     // k = configuration index, or -1 for "not activated" (manual activation)
+  if (k >= 0) set_configuration(f, (unsigned) k);
+  for (int c = 0; c < VM_NC; ++c) f._core.registry.compoResumable[c] = nd_u8();
+  VASSUME(inv_config(f));
+  VASSUME(k >= 0 ? spec_activated(f) : !spec_activated(f));
+}
+static void body_save_load(int ka, int kb) {
+  Instance a(g_rng); arbitrary_in_configuration(a, ka);
+  Instance b(g_rng); arbitrary_in_configuration(b, kb);
+  VREACH("source and destination instances");
+  Snapshot sa, sb; snap(a, sa); snap(b, sb);
+  sync_monitor(b);                                               // the monitors follow the destination instance
+  SerialBuffer buf;
+  a.save(buf);
+  VASSERT(C08, same_config(a, sa) && inv_quiescent(a), "saving leaves the instance untouched");
+  b.load(buf);
+  VASSERT(C01, inv_config(b) && inv_quiescent(b), "the configuration is well-formed after load");
+  VASSERT(C03, inv_monitor(b), "entered states == active states after load");
+  for (int c = 0; c < VM_NC; ++c) {
+    VASSERT(C08, b._core.registry.compoActive[c] == sa.active[c], "load reproduces the saved active configuration");
+    VASSERT(C08, b._core.registry.compoResumable[c] == sa.resumable[c], "load reproduces the saved resumable sub-states");
+  }
+  for (int s = 0; s < VM_NS; ++s) if (VM_HAS_STUB(s)) {
+    const bool was = sb.on[s], now = spec_active(b, s);
+    if (was && !now) VASSERT(C08, g_exit_count[s] == 1 && g_enter_count[s] == 0, "exit is delivered to every state that stops being active");
+    if (!was && now) VASSERT(C08, g_enter_count[s] == 1 && g_exit_count[s] == 0, "enter is delivered to every state that becomes active");
+    if (!was && !now) VASSERT(C08, g_enter_count[s] == 0 && g_exit_count[s] == 0, "states inactive before and after load receive nothing");
+  }
+  SerialBuffer buf2;
+  b.save(buf2);
+  bool same = true; for (unsigned i = 0; i < SerialBuffer::BYTE_COUNT; ++i) same = same && buf._data[i] == buf2._data[i];
+  VASSERT(C08, same, "saving the loaded instance again yields a bit-identical buffer");
+}
+#endif
+
+// ------------------------------------------------------------------------------------------------ C09: history and replay
+#ifdef HFSM2_ENABLE_TRANSITION_HISTORY
+static void copy_configuration(Instance& to, const Instance& from) {
+  for (int c = 0; c < VM_NC; ++c) { to._core.registry.compoActive[c] = from._core.registry.compoActive[c]; to._core.registry.compoResumable[c] = from._core.registry.compoResumable[c]; }
+}
+static void body_history_replay(int kind, int dest) {
+  ARBITRARY_ACTIVE(a);
+  Instance r(g_rng); copy_configuration(r, a);                     // an identically prepared replica
+  Snapshot old; snap(a, old);
+  if (kind == 6) { a.schedule((StateID) dest); a.update(); } else call_immediate(a, kind, dest);
+  const auto& hist = a.previousTransitions();
+  if (g_round_cancelled) {
+    VASSERT(C09, kind == 6 || hist.count() == 0, "nothing approved: the history of the step is empty");
+  } else if (kind != 6) {
+    VREACH("approved request");
+    VASSERT(C09, hist.count() == 1, "one approved request: the history holds exactly that request");
+    if (hist.count() == 1) VASSERT(C09, hist[0].destination == (StateID) dest && (int) hist[0].type == kind, "the history entry is the request that was applied");
+  }
+  for (int s = 0; s < VM_NS; ++s) {
+    const Instance::Transition* p = a.lastTransitionTo((StateID) s);
+    bool inside = p == nullptr; for (unsigned i = 0; i < hist.count(); ++i) inside = inside || p == &hist[i];
+    VASSERT(C09, inside, "lastTransitionTo(s) is null or points at an entry of the history");
+    if (!g_round_cancelled && kind != 6 && hist.count() == 1 && spec_active(a, s) && !old.on[s])
+      VASSERT(C09, p == &hist[0], "after a single approved request lastTransitionTo(s) points at it for every state it activated");
+  }
+  Snapshot after; snap(a, after);
+  sync_monitor(r); g_guards_forbidden = true;                      // the monitors follow the replica now
+  if (hist.count()) r.replayTransitions(hist);
+  g_guards_forbidden = false;
+  VASSERT(C01, inv_config(r) && inv_quiescent(r), "the replica is well-formed after the replay");
+  VASSERT(C03, inv_monitor(r), "entered states == active states in the replica");
+  for (int c = 0; c < VM_NC; ++c) {
+    VASSERT(C09, r._core.registry.compoActive[c] == after.active[c], "replaying the history reproduces the same active configuration");
+    if (kind != 6) VASSERT(C09, r._core.registry.compoResumable[c] == after.resumable[c], "single round without scheduling: replay reproduces the resumable sub-states too");
+  }
+}
+static void body_history_enter() {
+  Instance a(g_rng);
+  for (int s = 0; s < VM_NS; ++s) { g_entered[s] = false; g_enter_count[s] = 0; g_exit_count[s] = 0; }
+  g_guards_forbidden = false; g_round_cancelled = false;
+  a.enter();
+  const auto& hist = a.previousTransitions();
+  Snapshot after; snap(a, after);
+  Instance r(g_rng);
+  sync_monitor(r); g_guards_forbidden = true;
+  if (hist.count()) r.replayEnter(hist); else r.enter();
+  g_guards_forbidden = false;
+  if (hist.count()) {
+    for (int c = 0; c < VM_NC; ++c) VASSERT(C09, r._core.registry.compoActive[c] == after.active[c], "replayEnter() reproduces the initial activation");
+    VASSERT(C03, inv_monitor(r), "entered states == active states after replayEnter()");
+  }
+}
+#endif
